@@ -333,10 +333,20 @@ pub fn name_cases(ctx: &Ctx, spec: &FarmSpec, col: &mut Collected, names: &[Pool
                 decorated(&el(n, &[], vec![Item::Elem(el("a", &[], vec![text()])), Item::Elem(el("b", &["k"], vec![]))])),
                 decorated(&el(n, &[], vec![Item::Elem(el("b", &[], vec![]))])),
             ]);
+            // one element name at three places; only the later ones carry the name (as attribute / as child)
+            col.add(ctx, spec, &[decorated(&el("r", &[], vec![
+                Item::Elem(el("e", &["k"], vec![])),
+                Item::Elem(el("w", &[], vec![Item::Elem(el("e", &[n], vec![]))])),
+                Item::Elem(el("u", &[], vec![Item::Elem(el("e", &[], vec![Item::Elem(el(n, &[], vec![text()]))]))])),
+            ]))]);
             // repeated and optional
             col.add(ctx, spec, &[decorated(&el("r", &[], vec![Item::Elem(el(n, &["k"], vec![])), Item::Elem(el(n, &[], vec![])), Item::Elem(el("a", &[], vec![]))])), decorated(&el("r", &[], vec![]))]);
         } else {
             col.add(ctx, spec, &[decorated(&el("r", &[n, "k"], vec![Item::Elem(el("a", &[n], vec![text()]))]))]);
+            col.add(ctx, spec, &[decorated(&el("r", &[], vec![
+                Item::Elem(el("e", &["k"], vec![])),
+                Item::Elem(el("w", &[], vec![Item::Elem(el("e", &[n], vec![]))])),
+            ]))]);
         }
     }
     // a name that the renderer has to number (String, Option, Vec, Self) next to the numbered form
